@@ -7,6 +7,7 @@ ENGINES = ['alnmon', 'climon', 'sanrun']
 TECHNIQUE = 'reference-model monitor (edit distance / placement oracle) on every match_to() result + ASan/UBSan run'
 LEVEL_TEXT = "Every match returned by the real match_to() on ~10^5 (quick) to ~10^7 (thorough, plus a small exhaustive scope) generated (configuration, read) pairs is re-derived by an independent oracle; 'held' means no reported match on the executions observed violated bounds, placement, overlap, exact error count or tolerance. Exploration is the right level: the input space is unbounded and only executions are observed."
 LEVEL_TEXT += ' Rounds nine/ten: adapter lengths and absolute error numbers whose product rounds down in double precision; adapters of 21480-30000 nt with indels disabled (interval lengths agree, error count is the Hamming distance).'
+LEVEL_TEXT += ' The other anchored adapters of the command-line part may carry their own indel setting (one indexed group with and without indels).'
 LEVEL_NOTE = "Trusted base: verif/refmodel.py (wildcard relation, unit-cost edit distance, placement table), the workload generator's diversity, CPython. Effective error rates >= 1 are outside the domain. Score is not judged."
 VARIANTS = {"quick": ["plain", "asan"], "thorough": ["plain", "asan"]}
 BUDGET_S = {"quick": 120, "thorough": 2400}
